@@ -1,8 +1,10 @@
 CHECK = {
-    "suites": [suite("calls", "c04", 250, 20000, stdin=True)],
+    "suites": [suite("calls", "c04", 250, 20000, stdin=True),
+               suite("conc", "c04", 400, 20000, stdin=True, args=["-suite", "conc"])],
     "gen": [{"pkg": "extract_c04", "out": "lean/ClusterVerif/Gen/C04.lean"}],
     "lean_sources": ["ClusterVerif/Model/C04Source.lean", "ClusterVerif/Gen/C04.lean", "ClusterVerif/Model/Pin.lean", "ClusterVerif/Model/C04.lean", "ClusterVerif/Spec/C04.lean",
-                     "ClusterVerif/Model/C03.lean", "ClusterVerif/Spec/C03.lean", "ClusterVerif/Lemmas/C04.lean"],
+                     "ClusterVerif/Model/C03.lean", "ClusterVerif/Spec/C03.lean", "ClusterVerif/Lemmas/C04.lean",
+                     "ClusterVerif/Model/C04Faults.lean", "ClusterVerif/Spec/C04Conc.lean", "ClusterVerif/Lemmas/C04Faults.lean"],
     "rule": "histories of 4-25 Pin/PinPath/PinUpdate/Unpin/UnpinPath/rpc-pin calls over 12 CIDs (6 data, a sharded group), options drawn or derived "
             "from the stored pin with one field changed/added/removed, 5 default-factor settings, follower on/off, preloaded pinsets; every call is one case "
             "with its explicit pre-state; non-trivial = every case (each call is constrained by the generic clauses); distinct by case line",
